@@ -30,7 +30,7 @@ DEFAULT_POLICIES = {
 EXTRA_POLICIES = {
     "C04": ["frontier", "complete", "collide"], "C05": ["frontier", "collide", "complete"], "C06": ["complete", "collide", "greedy"],
     "C07": ["frontier", "collide", "complete"], "C08": ["complete", "greedy"], "C09": ["complete", "collide", "frontier"],
-    "C11": ["complete", "collide"], "C12": ["complete", "frontier", "collide"],
+    "C11": ["complete", "collide", "greedy", "lazy"], "C12": ["complete", "frontier", "collide"],
 }
 PROBES = {"C04": "all", "C05": "all", "C09": "some", "C07": "some"}
 
